@@ -1500,10 +1500,13 @@ def responses_gen(run):
     a2 = run.generate('ResponsesGen', cfgtext='CONSTANTS\n  Ctrl = {"c1", "c2"}\n  Weak = {"notifications_wait_for_response"}\n  MaxLen = 6\n' + t + 'INVARIANT NoAttack\nVIEW AttackView\nCHECK_DEADLOCK FALSE\n', expect_violation=True)
     if not a2:
         raise ToolTrouble('no attack word for guard notifications_wait_for_response')
+    a4 = run.generate('ResponsesGen', cfgtext='CONSTANTS\n  Ctrl = {"c1", "c2"}\n  Weak = {"accessories_written_outside_the_lock"}\n  MaxLen = 6\n' + t + 'INVARIANT NoAttack\nVIEW AttackView\nCHECK_DEADLOCK FALSE\n', expect_violation=True)
+    if not a4:
+        raise ToolTrouble('no attack word for guard accessories_written_outside_the_lock')
     a3 = run.generate('ResponsesGen', cfgtext='CONSTANTS\n  Ctrl = {"c1", "c2"}\n  Weak = {"keepalives_wait_for_response"}\n  MaxLen = 6\n' + t + 'INVARIANT NoAttack\nVIEW AttackView\nCHECK_DEADLOCK FALSE\n', expect_violation=True)
     if not a3:
         raise ToolTrouble('no attack word for guard keepalives_wait_for_response')
-    return [('word', words), ('attack:buffer_owned_until_written', [aw]), ('attack:notifications_wait_for_response', [complete(a2[0])]), ('attack:keepalives_wait_for_response', [complete(a3[0])])], dict(words_enumerated=nall, words_with_overlap=nover, words_replayed=len(words), word_len=6, attack_words=1)
+    return [('word', words), ('attack:buffer_owned_until_written', [aw]), ('attack:notifications_wait_for_response', [complete(a2[0])]), ('attack:keepalives_wait_for_response', [complete(a3[0])]), ('attack:accessories_written_outside_the_lock', [complete(a4[0])])], dict(words_enumerated=nall, words_with_overlap=nover, words_replayed=len(words), word_len=6, attack_words=1)
 
 
 def responses_family(run, replay=None):
@@ -1515,10 +1518,10 @@ def responses_family(run, replay=None):
     def extra(lines, behs):
         rec = [x for x in lines if x.get('a') == 'Receive']
         return dict(responses_received=len(rec), bytes_received=sum(x.get('n', 0) for x in rec), passes='1 processor, then all processors')
-    return generic_family(run, replay, hcv='responses', trace_mod='ResponsesTrace', gen=responses_gen, rules={'OwnResponse': 'C09'}, level='model_checking',
+    return generic_family(run, replay, hcv='responses', trace_mod='ResponsesTrace', gen=responses_gen, rules={'OwnResponse': 'C09', 'Served': 'C13'}, level='model_checking',
                           assumptions=['three pair-verified reference controllers on real ip transports (six in one process) with attribute databases of 81 accessories; both kinds of response are about 5 MB, more than the kernel lets the server get rid of while the controller does not read (receive window of 4 KB from the handshake on, send buffer growing to 4 MB), so a controller that has sent its request and does not read keeps the server in the middle of the response',
                                        'every word is executed twice: with one processor (whatever a parked handler left in per-processor state is found by the next handler) and with all processors',
-                                       'hc serialises GET /accessories on the server mutex while the response is written; the model therefore has at most one /accessories response in flight (named behaviour, no listed property speaks about it)'],
+                                       'GET /accessories is encoded under the server mutex and written after it was released: several such responses are in flight at the same time, none waits for another controller to read'],
                           rule_text='all complete words of length 6 over Send / Receive of three controllers and two kinds of response (Responses.tla) in which some response is served while another is in flight, sampled by seed, plus the attack word of the guard buffer_owned_until_written; distinct = abstract word; non-trivial = all of them',
                           nontrivial=lambda b: True, sanity=sanity, extra_cov=extra)
 
@@ -1530,3 +1533,4 @@ def with_e2e(base):
 for _p in ('C01', 'C03', 'C10', 'C20'):
     REGISTRY[_p] = with_e2e(REGISTRY[_p])
 REGISTRY['C09'] = with_stage(REGISTRY['C09'], responses_family, 'responses', 'concurrent_responses_part')
+REGISTRY['C13'] = with_stage(REGISTRY['C13'], responses_family, 'responses', 'concurrent_responses_part')
